@@ -1,10 +1,11 @@
 from vlib import H
 PROPERTY = 'C17'
 LEVEL = 'model_checking'
-CLAIM = ('Tier-A kernel only: Obfuscation::operator() (util/obfuscation.h, the XOR layer of blk/rev files and of AutoFile/BufferedFile) equals the byte-wise reference '
+CLAIM = ('(1) Obfuscation::operator() (util/obfuscation.h, the XOR layer of blk/rev files and of AutoFile/BufferedFile) equals the byte-wise reference '
          'out[i] = in[i] ^ key[(file_offset + i) mod 8] for every 8-byte key, every 64-bit file offset, every byte content, for buffer lengths 0..8 (single-word path) and 9, 24 (thorough: also 15,16,17,25) bytes at EVERY memory alignment (CBMC treats the buffer address as unknown) '
          '(covering the unaligned head, the 8-byte loop and the tail; the 64-byte unrolled loop needs >= 64 bytes and is NOT covered); hence it is an involution and position-consistent, so a record written in any chunking reads back identically '
-         'in any other chunking. NOT covered: AutoFile/BufferedFile read/write plumbing (FILE* model), BlockManager::ReadRawBlock framing, ReadBlockUndo checksum, file-sequence allocation, pruning.')
+         'in any other chunking. (2) harness flushpos: the real BlockManager::FlushBlockFile / FlushUndoFile flush - and, when finalizing, truncate - the blk file at exactly nSize and the rev file at exactly nUndoSize of the SAME file number (a wrong position destroys stored bytes), for all sizes and flag combinations. '
+         'NOT covered: AutoFile/BufferedFile read/write plumbing (FILE* model), BlockManager::ReadRawBlock framing, ReadBlockUndo checksum, FindNextBlockPos/FindUndoPos allocation, pruning.')
 FN = ['Obfuscation::Obfuscation(span)', 'Obfuscation::operator()', 'Obfuscation::SetRotations', 'Obfuscation::ToKey', 'Obfuscation::XorWord', 'Obfuscation::operator bool']
 ST = ['tinyformat.h shadowed (ref/nofmt): only used by Obfuscation::Unserialize error text, not executed']
 def hs(name, shapes, unwind, **kw):
@@ -13,4 +14,9 @@ def hs(name, shapes, unwind, **kw):
 HARNESSES = [
     hs('obfuscate', [(0, 0), (5, 0), (8, 0)], 12, tvariants=[{'NBYTES': n, 'MIS': 0} for n in range(0, 9)]),
     hs('obfuscate_mid', [(9, 1), (24, 5)], 30, tvariants=[{'NBYTES': n, 'MIS': m} for n, m in ((9, 1), (15, 2), (16, 0), (17, 7), (24, 5), (25, 3))]),
+    H('flushpos', 'flushpos.cpp', 'h_flushpos', link=['node/blockstorage.cpp'], entries=[('nf1_f0', '1, 0'), ('nf3_f1', '3, 1'), ('nf3_f2', '3, 2')], shadow=['nofmt'], unwind=8, memunwind=168, timeout=300, objbits=10,
+      functions=['node::BlockManager::FlushBlockFile', 'node::BlockManager::FlushUndoFile (node/blockstorage.cpp)', 'std::vector<CBlockFileInfo>'],
+      stubs=['FlatFileSeq::Flush -> recorder returning success (real one: fopen + truncate/fsync)', 'phantom BlockManager: only m_blockfile_info is constructed', 'logging sinks dropped', 'tinyformat -> empty strings', 'assertion_fail -> CBMC assertion'],
+      assumptions=['the file layer reports success (the flushError notification path is not exercised)'],
+      bounds='block-file tables of 1 and 3 files, flushed file number concrete per entry; all sizes (32-bit), finalize flags symbolic'),
 ]
